@@ -12,9 +12,9 @@ def _miss(v):
     return v is None or (isinstance(v, float) and v != v)
 
 
-DATA_CARRIERS = ["f64", "list_none", "list_nan", "tuple_nan", "f32", "int", "masked_nan", "masked_junk", "masked_mixed", "masked_int", "masked_fill", "series",
+DATA_CARRIERS = ["f64", "list_none", "list_nan", "tuple_nan", "f32", "int", "uint", "int16", "masked_nan", "masked_junk", "masked_mixed", "masked_int", "masked_fill", "series",
                  "series_shifted", "dask", "object"]
-TIME_CARRIERS = ["dt64ns", "dt64us", "dt64ms", "dt64s", "list_datetime", "list_timestamp", "dtindex", "series",
+TIME_CARRIERS = ["dt64ns", "dt64us", "dt64ms", "dt64s", "dt64m", "dt64h", "dt64D", "list_datetime", "list_timestamp", "dtindex", "series",
                  "dtindex_utc", "series_utc", "epoch_list", "epoch_int", "epoch_float", "epoch_int32"]
 SPAN_CARRIERS = ["list", "tuple"]
 
@@ -22,6 +22,11 @@ SPAN_CARRIERS = ["list", "tuple"]
 def data_applicable(kind, xs):
     if kind == "int":
         return all((not _miss(v)) and abs(float(v)) < 2 ** 53 and float(v) == int(v) for v in xs) and len(xs) > 0
+    if kind == "uint":
+        # unsigned counts (differences of unsigned integers wrap around unless they are widened first)
+        return len(xs) > 0 and all((not _miss(v)) and 0 <= float(v) < 2 ** 32 and float(v) == int(v) for v in xs)
+    if kind == "int16":
+        return len(xs) > 0 and all((not _miss(v)) and abs(float(v)) < 2 ** 15 and float(v) == int(v) for v in xs)
     if kind == "masked_int":
         # integer-dtype masked array with an explicit mask (packed netCDF variables look like this)
         return len(xs) > 0 and all(_miss(v) or (abs(float(v)) < 2 ** 53 and float(v) == int(v)) for v in xs)
@@ -46,6 +51,11 @@ def data(xs, kind="f64", junk=None):
         return np.array(f, dtype=np.float32)
     if kind == "int":
         return np.array([int(v) for v in xs], dtype=np.int64)
+    if kind == "uint":
+        m = max(int(v) for v in xs)
+        return np.array([int(v) for v in xs], dtype=np.uint8 if m < 256 else np.uint16 if m < 65536 else np.uint32)
+    if kind == "int16":
+        return np.array([int(v) for v in xs], dtype=np.int16)
     if kind == "masked_nan":
         return np.ma.MaskedArray(np.array(f, dtype=np.float64), mask=[_miss(v) for v in xs])
     if kind == "masked_junk":
@@ -97,7 +107,11 @@ def fractional(ts):
 def time_applicable(kind, ts):
     """datetime64[s] and integer epoch carriers cannot hold sub-second instants."""
     if fractional(ts):
-        return kind not in ("dt64s", "epoch_int", "epoch_int32")
+        return kind not in ("dt64s", "dt64m", "dt64h", "dt64D", "epoch_int", "epoch_int32")
+    if kind in ("dt64m", "dt64h", "dt64D"):
+        # coarse datetime units hold the instants only when they are whole minutes / hours / days
+        step = {"dt64m": 60, "dt64h": 3600, "dt64D": 86400}[kind]
+        return all(int(t) % step == 0 for t in ts)
     if kind == "epoch_int32":
         return len(ts) > 0 and min(ts) >= 0 and max(ts) < 2 ** 32
     return True
